@@ -77,6 +77,8 @@ def c_model(case, sizes, hsz, upto=None):
                 expr = "(mrun %s %s 0 None %s)" % (cfg, cnat(nl), o)
             else:
                 expr = "(let p := %s in mrunfrom %s (mnext %s p) %s)" % (expr, cfg, cfg, o)
+        elif expr is None and case.get("fail_open") is not None:
+            expr = "(runfo %s 0 None None (Some %s) %s)" % (cfg, cnat(case["fail_open"] - 1), o)
         elif expr is None and case.get("fail_rename") is not None:
             expr = "(runf %s 0 None (Some %s) %s)" % (cfg, cnat(case["fail_rename"] - 1), o)
         elif expr is None:
@@ -122,6 +124,9 @@ Definition mclean (ss : list st) (impl : list (list (option content))) : bool :=
 Definition cleanf (s : st) (impl : list (option content)) : bool :=
   l_eqb oc_eqb (files s) impl && match hbuf s with None => true | Some _ => false end.
 Definition mcleanf (ss : list st) (impl : list (list (option content))) : bool := all2 cleanf ss impl.
+(* runs with an injected failure of the new main file's creation: also compare "the failure surfaced" *)
+Definition cleano (ss : list st) (p : list (list (option content)) * bool) : bool :=
+  match ss with [s] => all2 cleanf ss (fst p) && Bool.eqb (aborted s) (snd p) | _ => false end.
 """
 
 
@@ -195,8 +200,35 @@ def spec_fail(case, res):
     return None
 
 
+def spec_open(case, res):
+    """one injected failure of ocfn(path,'w+') in a rotation: no record is lost silently -- every record handed to
+    the log is retained, was discarded with the oldest copy, or belongs to the run in which the failure surfaced
+    (an exception left the runner)"""
+    ow = res["spy"]["overwrites"]
+    if ow:
+        return "a rename overwrote copy %s which still held the retained records %r" % (ow[0][1], ow[0][2])
+    ids = []
+    for f in res["files"][0]:
+        if f:
+            if any(i != "H" and i[0] == "P" for i in f):
+                return "garbled line"
+            ids += [it[1] for it in f if it != "H"]
+    sf = res.get("surfaced")
+    n = sf["nw_before"][0] if sf else res["nwritten"][0]
+    a = res["spy"]["legit_dropped"][0] + 1
+    if ids != list(range(a, n)):
+        return ("retained ids %r..%r, but records %d..%d were handed to the log and none of them was discarded with "
+                "the oldest copy; the %d-th creation of the new main file failed; %s" % (
+                    ids[:1], ids[-1:], a, n - 1, case["fail_open"],
+                    "exception %s surfaced at op %d" % (sf["exc"], sf["op"]) if sf else
+                    "NO exception surfaced and the logger kept running: records lost silently"))
+    return None
+
+
 def spec_check(case, res, crashed):
     """the statement on the surviving files alone, for every log of the logger.  returns None | why"""
+    if case.get("fail_open") is not None and not crashed:
+        return spec_open(case, res)
     if case.get("fail_rename") is not None and not crashed:
         return spec_fail(case, res)
     rules = harness.rules_of(case)
@@ -334,6 +366,19 @@ def gen_fail(rng):
             "reuse": rng.random() < 0.5, "procs": [ops], "fail_rename": (j - 1) * keep + i}
 
 
+def gen_openfail(rng):
+    """rotation on every cycle period; the j-th creation of the new main file (ocfn 'w+') raises IOError;
+    every control queues at least one record"""
+    keep = rng.choice([1, 2, 2, 3])
+    ops, active = gen_ops(rng, rng.randint(12, 26))
+    ops = [o if o[0] == "tick" else [o[0], max(o[1], 1)] for o in ops]
+    ops = [o if o[0] != "tick" else ["tick", max(o[1], 2)] for o in ops]
+    if active and rng.random() < 0.7:
+        ops.append(["stop", 1])
+    return {"keep": keep, "cycleP": 2, "fsize": rng.choice([0, 0, 10]), "flushP": rng.choice([8, 24]),
+            "reuse": rng.random() < 0.5, "procs": [ops], "fail_open": rng.randint(1, 3)}
+
+
 def long_single(rng):
     """one streak log; the logger runs every tick (period 1/8 s << flushPeriod >= 1 s); no rotation or
     cyclePeriod > flushPeriod; run long enough that several flushes fall due; killed late"""
@@ -395,17 +440,33 @@ def run(ctx):
                               "fail_rename": (j - 1) * keep + i})
     for _ in range(ctx.n(40, 600)):
         cases.append(gen_fail(ctx.rng))
+    # 1c. fault injection: the creation of the new main file fails once (ocfn 'w+' raises IOError)
+    for keep in (1, 2):
+        for j in (1, 2, 3):
+            for reuse in (False, True):
+                ops = [["start", 1]] + sum([[["tick", 1], ["run", 1]] for _ in range(10)], []) + [["tick", 1], ["stop", 1]]
+                cases.append({"keep": keep, "cycleP": 2, "fsize": 0, "flushP": 24, "reuse": reuse, "procs": [ops],
+                              "fail_open": j})
+    for _ in range(ctx.n(30, 400)):
+        cases.append(gen_openfail(ctx.rng))
     for case in cases:
         res = harness.run_case(case, work)
         nrot = sum(1 for c in res["spy"]["cycles"] if c[3])
         ctx.case({"case": case, "files": res["files"]}, nontrivial=nrot > 0,
-                 kind=("renamefail:keep=%d:hit=%s" % (case["keep"], res["spy"]["renames"] >= case["fail_rename"])
+                 kind=("openfail:keep=%d:hit=%s:surfaced=%s" % (case["keep"], res["opens"] >= case["fail_open"],
+                                                                 bool(res.get("surfaced")))
+                       if case.get("fail_open") is not None else
+                       "renamefail:keep=%d:hit=%s" % (case["keep"], res["spy"]["renames"] >= case["fail_rename"])
                        if case.get("fail_rename") is not None else
                        "clean:logs=%d:keep=%d" % (len(harness.rules_of(case)), case["keep"])))
         metas.append((case, res, None))
         try:
-            pairs.append((c_model(case, res["sizes"], res["hsz"]), c_allfiles(res["files"]),
-                          "cleanf" if case.get("fail_rename") is not None else "clean"))
+            if case.get("fail_open") is not None:
+                pairs.append((c_model(case, res["sizes"], res["hsz"]),
+                              "(%s, %s)" % (c_allfiles(res["files"]), cbool(bool(res.get("surfaced")))), "cleano"))
+            else:
+                pairs.append((c_model(case, res["sizes"], res["hsz"]), c_allfiles(res["files"]),
+                              "cleanf" if case.get("fail_rename") is not None else "clean"))
         except ValueError as ex:
             pairs.append(None)
             ctx.tie_broken("correspondence", "C23 garbled file", "%s %s" % (json.dumps(case), ex))
@@ -422,6 +483,15 @@ def run(ctx):
             crash_cases.append(dict(case, crash=k))
     # 2b. several logs per logger, sparse writers, small flush period: killed at EVERY tick (demo shape), and
     #     random multi-log histories killed at sampled (quick) / all (thorough) ops
+    # deterministic demo shapes (independent of the seed): a sparse log (one record at stamp 0) next to a busy one,
+    # no rotation, flushPeriod 1 s, logger period 1/8 s, killed after the first / second due flush and at the end
+    for rules in (["once", "always"], ["update", "streak"], ["always", "change"]):
+        ops = [["start", 1, [True] * len(rules)]]
+        for _ in range(20):
+            ops += [["tick", 1], ["run", 1, [False] * len(rules)]]
+        for k in (19, 35, len(ops)):
+            crash_cases.append({"keep": 0, "cycleP": 16, "fsize": 0, "flushP": 8, "reuse": False, "logs": rules,
+                                "procs": [ops], "crash": k})
     for _ in range(ctx.n(1, 6)):
         case = long_multi(ctx.rng)
         last = case["procs"][-1]
@@ -512,7 +582,11 @@ def run(ctx):
     idx_clean = [i for i, p in enumerate(pairs) if p and p[2] == "clean"]
     idx_adm = [i for i, p in enumerate(pairs) if p and p[2] == "adm"]
     idx_cleanf = [i for i, p in enumerate(pairs) if p and p[2] == "cleanf"]
+    idx_cleano = [i for i, p in enumerate(pairs) if p and p[2] == "cleano"]
     bad = []
+    if idx_cleano:
+        b = ctx.coq_cases(HEADER, "cleano", [(pairs[i][0], pairs[i][1]) for i in idx_cleano], name="cleano")
+        bad += [idx_cleano[j] for j in b]
     if idx_cleanf:
         b = ctx.coq_cases(HEADER, "mcleanf", [(pairs[i][0], pairs[i][1]) for i in idx_cleanf], name="cleanf")
         bad += [idx_cleanf[j] for j in b]
@@ -556,7 +630,8 @@ def run(ctx):
                            "cyclePeriod_ticks": case["cycleP"], "keep": case["keep"],
                            "crash_tick": None if not due else due[2], "tick_seconds": 0.125,
                            "due_flushed_per_log": None if not due else due[0]},
-                "contradicts": ("C23.Props.failed_rename_loses_nothing / failed_rename_stops_the_chain"
+                "contradicts": ("C23.Props.no_record_lost_silently" if case.get("fail_open") is not None else
+                                "C23.Props.failed_rename_loses_nothing / failed_rename_stops_the_chain"
                                 if case.get("fail_rename") is not None else
                                 "C23.Props.crash_keeps_flushed_every_log / logger_flush_flushes_every_log / "
                                 "retained_contiguous")}
